@@ -152,15 +152,23 @@ func checkC10(c *Ctx) {
 		base := msgTemplate("ns.one", "{msg"+mattr+" desc=\"d\"}"+body+"{/msg}", parts)
 		// variants: other description, other messages before/after, another file/template around it
 		variants := []struct {
-			name  string
-			files []string
-			at    int // index of the message under test among the compiled messages
+			name   string
+			files  []string
+			at     int   // index of the message under test among the compiled messages
+			also   []int // further copies of the message (all must get the same id and names)
+			single bool  // one compilation under the canonical map order (the file holds many copies)
 		}{
-			{"alone", []string{base}, 0},
-			{"other description", []string{msgTemplate("ns.one", "{msg"+mattr+" desc=\"a completely different description\"}"+body+"{/msg}", parts)}, 0},
+			{"alone", []string{base}, 0, nil, false},
+			{"other description", []string{msgTemplate("ns.one", "{msg"+mattr+" desc=\"a completely different description\"}"+body+"{/msg}", parts)}, 0, nil, false},
 			{"after and before other messages", []string{msgTemplate("ns.one", "{msg desc=\"x\"}first {$a}{/msg}t{msg"+mattr+" desc=\"d\"}"+body+"{/msg}{msg desc=\"y\"}last<b>{$b}</b>{/msg}",
-				append(append([]MPart{}, parts...), MPart{Kind: "print", E: vr("a")}, MPart{Kind: "print", E: vr("b")}))}, 1},
-			{"second file in another namespace first", []string{msgTemplate("zz.other", "{msg desc=\"q\"}other {$a} file{/msg}", []MPart{{Kind: "print", E: vr("a")}}), base}, 1},
+				append(append([]MPart{}, parts...), MPart{Kind: "print", E: vr("a")}, MPart{Kind: "print", E: vr("b")}))}, 1, nil, false},
+			{"second file in another namespace first", []string{msgTemplate("zz.other", "{msg desc=\"q\"}other {$a} file{/msg}", []MPart{{Kind: "print", E: vr("a")}}), base}, 1, nil, false},
+			// the message inside every kind of block (messages are found wherever template code can stand)
+			{"inside if, let, param, foreach, switch, log and nested blocks", []string{msgTemplate("ns.one", func() string {
+				m := "{msg" + mattr + " desc=\"d\"}" + body + "{/msg}"
+				return "{if true}" + m + "{else}" + m + "{/if}{let $v_}" + m + "{/let}{$v_}{call .c}{param p}" + m + "{/param}{/call}{foreach $i_ in [1]}" + m + "{ifempty}" + m + "{/foreach}" +
+					"{switch 1}{case 1}" + m + "{default}" + m + "{/switch}{log}" + m + "{/log}{let $w_}{call .c}{param p}{if true}" + m + "{/if}{/param}{/call}{/let}{$w_}"
+			}(), parts)}, 0, []int{1, 2, 3, 4, 5, 6, 7, 8, 9}, true},
 		}
 		cs := c10case{Msg: body, Meaning: meaning, Desc: "d"}
 		key := body + "\x00" + meaning
@@ -183,6 +191,17 @@ func checkC10(c *Ctx) {
 					return
 				}
 				m := got[va.at]
+				for _, k := range va.also {
+					if k >= len(got) {
+						c.Violate("message found", "mismatch", "missing-copy:"+sig, cs, fmt.Sprintf("%d messages", len(va.also)+1), fmt.Sprintf("%d found", len(got)))
+						return
+					}
+					if got[k].id != m.id || strings.Join(got[k].names, ",") != strings.Join(m.names, ",") {
+						c.Violate("the id is unaffected by the description, surrounding code and other messages", "mismatch", "context-dependent:block:"+sig, cs,
+							fmt.Sprintf("%d %v", m.id, m.names), fmt.Sprintf("copy %d of the message: %d %v", k, got[k].id, got[k].names))
+						return
+					}
+				}
 				if ref0 == nil {
 					ref0 = &m
 					if vi == 0 {
@@ -201,7 +220,16 @@ func checkC10(c *Ctx) {
 						fmt.Sprintf("%d %v", ref0.id, ref0.names), fmt.Sprintf("%d %v under map order %v", m.id, m.names, prefix))
 				}
 			}
-			if c.Instr() {
+			if va.single {
+				var got []compiledMsg
+				var err error
+				v := vrt.Run(vrt.Options{Fuel: 20000000}, func() { got, err = compileMsgs(va.files, globals) })
+				check(v, nil, got, err)
+				ref0 = nil // compared with the first variant through the copies' agreement and the clause below
+				if err == nil && va.at < len(got) {
+					ref0 = &got[va.at]
+				}
+			} else if c.Instr() {
 				var got []compiledMsg
 				var err error
 				st := explore(vrt.Options{Fuel: 5000000, MapChoice: true, FixedSched: true}, bound, 20000, func() { got, err = compileMsgs(va.files, globals) },
